@@ -41,10 +41,45 @@ def select(pid, tier, only=None):
         if tier == "quick" and vlib.tier_of(name) != "quick":
             continue
         items.append((mod, name))
+    if tier == "quick" and not only:
+        items += seeded_extras(pid, items, disc)
     if only:
         rx = re.compile(only)
         items = [it for it in items if rx.search("::".join(it))]
     return items
+
+
+EXTRA_PER_QUICK = 2
+EXTRA_MAX_WALL_S = 60
+
+
+def seeded_extras(pid, items, disc):
+    """VERIF_SEED rotates which thorough-only harnesses a quick run adds to its fixed core set (no verdict
+    depends on the seed: every harness is decided for all its inputs; the seed only widens, over
+    repeated runs, the set of instantiations a quick run looks at).  Only harnesses whose recorded
+    thorough-tier wall time (bin/timings.json) is small are eligible."""
+    import random
+    tpath = os.path.join(os.path.dirname(os.path.abspath(__file__)), "timings.json")
+    if not os.path.exists(tpath):
+        return []
+    try:
+        tim = json.load(open(tpath))
+    except Exception:
+        return []
+    seed = int(os.environ.get("VERIF_SEED", "0") or 0)
+    have = set(items)
+    pool = []
+    for mod in PROPS[pid]["modules"]:
+        for name in disc.get(mod, []):
+            full = f"{mod}::{name}"
+            if vlib.tier_of(name) == "thorough" and not vlib.is_known_finding_harness(name) and (mod, name) not in have:
+                w = tim.get(full)
+                if w is not None and w <= EXTRA_MAX_WALL_S:
+                    pool.append((mod, name))
+    pool.sort()
+    rnd = random.Random(f"{pid}-{seed}")
+    rnd.shuffle(pool)
+    return pool[:EXTRA_PER_QUICK]
 
 
 def describe(name):
@@ -122,7 +157,9 @@ def main():
         violations.sort(key=lambda r: r["wall_s"])
         v = violations[0]
         print(f"[{pid}] solver reports a failed assertion in {v['full']}: {v['why']}; extracting concrete values ...", flush=True)
-        test_src, st = vlib.extract_playback(v["module"], v["name"], caps["timeout"] * 4, caps["mem"] + 6)
+        # concrete playback is ~10x slower than the plain run: budget it from the harness' own cost
+        pb_cap = int(min(caps["timeout"] * 4, max(600, 12 * v["wall_s"])))
+        test_src, st = vlib.extract_playback(v["module"], v["name"], pb_cap, caps["mem"] + 6)
         path = vlib.write_replay_file(pid, v["module"], v["name"], test_src, v["parsed"]["failed"], a.tier)
         reproduced = None
         if test_src:
